@@ -88,6 +88,12 @@ func init() {
 					s.Length = pick(r, []int{72, 73, 74, 100, 200})
 				}
 			}
+			if r.Chance(0.003) {
+				s.Words = hugeList() // more than 2^16 words
+				s.Constructions, s.Native = 1, 1
+				s.Seps = s.Seps[:1]
+				s.Length = 1 + r.Intn(4)
+			}
 			if r.Chance(0.5) {
 				cc := genCharCfg(r, charOpt{small: true, budget: 40, maxLen: 2, maxReq: 1, noEmptied: true})
 				if modelChar(cc).Count().Sign() > 0 && len(modelChar(cc).Req) == 0 {
@@ -150,6 +156,12 @@ func init() {
 					alt = append(alt, alt[0])
 				}
 				s.Alt = alt[:len(s.Words)]
+			}
+			if r.Chance(0.004) {
+				// more than 2^16 distinct words
+				s.Shipped = "huge"
+				s.Words = nil
+				s.Constructions, s.Native = 1, 0
 			}
 			if r.Chance(0.02) {
 				s.Shipped = pick(r, []string{"words", "syllables"})
@@ -301,7 +313,9 @@ func runC10(c *Ctx, si interface{}) {
 		words = shippedLists[s.Shipped]
 	}
 	if len(words) == 0 {
-		for _, in := range [][]string{nil, {}} {
+		withCap := make([]string, 0, 4)
+		backing := []string{"left", "over"}
+		for _, in := range [][]string{nil, {}, withCap, backing[:0]} {
 			m := mark()
 			wl, err := spg.NewWordList(in)
 			_ = since(m)
